@@ -12,5 +12,6 @@ theorem order_Program_shutdown : Tea.Gen.fact_order_Program_shutdown = Tea.Doc.f
 theorem order_standardRenderer_stop : Tea.Gen.fact_order_standardRenderer_stop = Tea.Doc.fact_order_standardRenderer_stop := rfl
 theorem calls : Tea.Gen.fact_calls = Tea.Doc.fact_calls := rfl
 theorem locks : Tea.Gen.fact_locks = Tea.Doc.fact_locks := rfl
+theorem body_standardRenderer_halt : Tea.Gen.fact_body_standardRenderer_halt = Tea.Doc.fact_body_standardRenderer_halt := rfl
 
 end Tea.Props.Bridge.C07
